@@ -14,7 +14,9 @@ RULE = ("op roundtrip: random trees inside the quantifier (2..14 tips, thorough 
         "comments, branch comment without length, names with metacharacters / surrounding blanks / numeric inner names, ']' in "
         "comments, empty tip names, root with one child, NUL or invalid UTF-8 in names/comments) for the correspondence only; op parse: valid texts with blanks inserted "
         "between tokens, truncations, splices, character and raw-byte mutations/insertions/deletions (NUL, invalid UTF-8) of valid texts and a fixed list of "
-        "hand-written edge cases; a deterministic buffer-boundary sweep (one-line texts of 4.5-20 KB, thorough 70 KB, in which each character class legal "
+        "hand-written edge cases; a deterministic sweep of special code points (BOM, zero-width, no-break and other Unicode spaces, NEL, line/paragraph separators, soft hyphen, "
+        "U+FFFD, combining, bidi controls, astral characters, characters whose UTF-8 bytes are high-bit variants of the metacharacters, C0 controls, DEL) at the start, middle and end of tip, "
+        "inner and root names and of node, root and branch comments; a deterministic buffer-boundary sweep (one-line texts of 4.5-20 KB, thorough 70 KB, in which each character class legal "
         "in the quantifier -- ; ( ) , : [ blank CR in comments, blank quote tab '/' and multi-byte characters in names, digits . - / of numbers, the structural "
         "characters, the final ';' -- is placed at byte offsets B-2..B+1, B = 4096, 8192, 65536, by padding the first tip name); every text is also read through "
         "utils.ReadMultiTrees/ReadUntilSemiColon and compared with Model/MultiTree.v; number texts (long decimals, exponents, hex floats, underscores, halfway and overflow/underflow boundaries) in length and support position; a case is non-trivial when it is a round trip inside the quantifier or an accepted text; "
@@ -443,6 +445,44 @@ def gen_boundary(tier):
                         "meta": {"op": "roundtrip", "kind": "boundary:end", "B": B, "delta": d}})
     return out
 
+# ---------------------------------------------------------------- special code points
+# Code points that text processing tends to treat specially, at the start, in the middle and at the end of every
+# kind of name and comment.  The lexer's blanks are ' ' \t \n \r only; Parse trims tip names with unicode.IsSpace
+# (U+0085 U+00A0 U+1680 U+2000-200A U+2028 U+2029 U+202F U+205F U+3000): a name that starts or ends with one of
+# those is outside the quantifier (the judge decides with the model's TrimSpace), everything else is inside.
+SPECIAL_CPS = ["\ufeff", "\u200b", "\u200c", "\u200d", "\u00a0", "\u0085", "\u2028", "\u2029", "\u00ad", "\ufffd", "\u0301",
+               "\U0001f600", "\U00010348", "\u2003", "\u3000", "\u1680", "\u202f", "\u205f", "\u180e", "\u2060", "\u061c", "\u200e", "\u202e",
+               # UTF-8 bytes that are the high-bit variants of ( ) , : ; [ ]
+               "\u00e8", "\u00e9", "\u00ec", "\u00fa", "\u00fb", "\u06db", "\u075d", "\u2a28", "\u2b3a", "\U0001a8a9", "\u007f", "\u0001", "\u001f"]
+
+def gen_special(tier):
+    out = []
+    def tree(place, txt):
+        a = _tipn("A"); b = _tipn("B"); c = _tipn("C")
+        inner = _clade("", [(_edge(Fraction(1, 2)), a), (_edge(), b)])
+        ein = _edge(Fraction(1, 4))
+        root = {"name": "", "coms": [], "slots": [(ein, inner), (_edge(Fraction(3, 4)), c)]}
+        if place == "tip": a["name"] = txt
+        elif place == "inner": inner["name"] = txt
+        elif place == "root": root["name"] = txt
+        elif place == "tipcom": a["coms"] = ["k", txt]
+        elif place == "innercom": inner["coms"] = [txt]; ein["sup"] = Fraction(7, 8)
+        elif place == "rootcom": root["coms"] = [txt, "z"]
+        elif place == "ecom": ein["coms"] = [txt]
+        return root
+    places = ["tip", "inner", "root", "tipcom", "innercom", "rootcom", "ecom"]
+    k = 0
+    for cp in SPECIAL_CPS:
+        for pos, txt in (("start", cp + "xy"), ("middle", "x" + cp + "y"), ("end", "xy" + cp), ("only", cp), ("twice", cp + "x" + cp + cp)):
+            for place in places:
+                k += 1
+                if tier != "thorough" and pos in ("only", "twice") and k % 3:
+                    continue
+                t = tree(place, txt)
+                out.append({"sx": sx({"op": Sym("roundtrip"), "tree": T(t)}),
+                            "meta": {"op": "roundtrip", "kind": "special:" + place, "cp": "U+%04X" % ord(cp), "pos": pos}})
+    return out
+
 def gen(rng, tier):
     g = G(rng)
     nwf, nout, nval, nmal, nnum = {"quick": (600, 200, 100, 400, 150), "thorough": (40000, 10000, 5000, 35000, 10000), "search": (300, 100, 50, 250, 50)}[tier]
@@ -471,6 +511,8 @@ def gen(rng, tier):
             texts.append(nw(t))
             rt(t, "wf")
     # the big boundary texts are spread over the whole list (the runner works on consecutive chunks in parallel)
+    if tier != "search":
+        out += gen_special(tier)
     big = gen_boundary(tier)
     for _ in range(nnum):
         x = numtext(rng)
